@@ -74,6 +74,21 @@ Theorem C08_EndBlock_sealed_consumer : forall (sched sched' : Z -> list Z) fs fs
 Proof. exact seal_consume_perm. Qed.
 Print Assumptions C08_EndBlock_sealed_consumer.
 
+(* the same loop as it is at HEAD: RemoveNonceWithFeederIDForAll(feederID) iterates the nonce STORE (no schedule);
+   what is left of the schedule is the order of `sealed` *)
+Theorem C08_EndBlock_sealed_consumer_all : forall keys fs fs' st,
+  NoDup keys -> Permutation fs fs' -> feq (seal_consume_all keys fs st) (seal_consume_all keys fs' st).
+Proof. exact seal_consume_all_perm. Qed.
+Print Assumptions C08_EndBlock_sealed_consumer_all.
+
+(* … and it does not matter that a later feeder's store iteration no longer lists the validators whose row an earlier
+   feeder emptied: listing validators without a row changes nothing *)
+Theorem C08_remove_nonce_rowless_validators : forall f vals extra st,
+  NoDup (vals ++ extra) -> (forall x, In x extra -> st x = None) ->
+  feq (remove_nonce_for f (vals ++ extra) st) (remove_nonce_for f vals st).
+Proof. exact remove_nonce_extra_keys. Qed.
+Print Assumptions C08_remove_nonce_rowless_validators.
+
 (* msgServer.CreatePrice: RemoveNonceWithFeederIDForValidators(feederID, agc.GetValidators()) for one feeder *)
 Theorem C08_remove_nonce_for_validators : forall f vals vals' st,
   Permutation vals vals' -> feq (remove_nonce_for f vals st) (remove_nonce_for f vals' st).
